@@ -560,6 +560,8 @@ func (t *Tree) RerootMidPoint() error {
 	var potentialedges []*Edge
 	// Length of the path
 	curlength := 0.0
+	// Tip from which the maximum length path was computed
+	var starttip *Node
 
 	// We take the max length path of all the tips
 	for _, t := range tips {
@@ -570,15 +572,25 @@ func (t *Tree) RerootMidPoint() error {
 		if length > curlength {
 			curlength = length
 			potentialedges = edges
+			starttip = t
 		}
 	}
 	if potentialedges == nil {
 		return errors.New("Cannot reroot at midpoint: all paths between tips have a null length")
 	}
-	// Path potentialedges starts from tip 1:
-	// potentialedges[0].Right()
-	// And ends at tip 2:
-	// potentialedges[len(potentialedges)-1].Right()
+	// Path potentialedges ends at starttip (last edge) and starts at
+	// the other end of the path (first edge). That other end is not
+	// necessarily a tip, nor potentialedges[0].Right(): MaxLengthPath
+	// does not extend a path with 0 length branches.
+	// We walk the path backward from starttip to find it.
+	node2 := starttip
+	for j := len(potentialedges) - 1; j >= 0; j-- {
+		if potentialedges[j].Left() == node2 {
+			node2 = potentialedges[j].Right()
+		} else {
+			node2 = potentialedges[j].Left()
+		}
+	}
 
 	// Find the right edge in the path to place the root
 	i := 0
@@ -587,22 +599,17 @@ func (t *Tree) RerootMidPoint() error {
 	// To know from which node the cut will be done.
 	// Necessary because orientation changes during the path
 	// when we cross the root node.
-	var node1, node2 *Node
+	// node2 is the end of the path already reached
+	var node1 *Node
 	for float64(len) < curlength/2.0 {
-		// First tip
-		if i == 0 {
+		if potentialedges[i].Right() == node2 {
+			// We did not cross the root node, and we go up
 			node1 = potentialedges[i].Right()
 			node2 = potentialedges[i].Left()
-		} else {
-			if potentialedges[i].Right() == node2 {
-				// We did not cross the root node, and we go up
-				node1 = potentialedges[i].Right()
-				node2 = potentialedges[i].Left()
-			} else if potentialedges[i].Left() == node2 {
-				// We already crossed the root node and we now go done
-				node1 = potentialedges[i].Left()
-				node2 = potentialedges[i].Right()
-			}
+		} else if potentialedges[i].Left() == node2 {
+			// We already crossed the root node and we now go done
+			node1 = potentialedges[i].Left()
+			node2 = potentialedges[i].Right()
 		}
 		len += potentialedges[i].Length()
 		i++
